@@ -13,8 +13,8 @@ CAPS2 = [[6, 8], [6, 8]]
 KEY_D4 = "D4:send-to-issuing-node"
 KEY_D5 = "D5:wait-for-cycle-of-sends"
 KEY_D6 = "D6:lock_nodes-timeout-with-pending-request"
-KEY_D17 = "D17:shared-handle-consumed-by-a-concurrent-operation"
-KEYS = {"D4": KEY_D4, "D5": KEY_D5, "D6": KEY_D6, "D17": KEY_D17}
+KEY_D23 = "D23:shared-handle-consumed-by-a-concurrent-operation"
+KEYS = {"D4": KEY_D4, "D5": KEY_D5, "D6": KEY_D6, "D23": KEY_D23}
 
 TRUST = ["harness/conc.py: concurrent remote_* calls on in-process virtual nodes joined by the real Perspective Broker (iosim transports); a seeded "
          "scheduler delivers single PB messages per link direction and advances a twisted task.Clock; `random.uniform` of virtual.py (lock back-off) "
